@@ -32,6 +32,8 @@ func directedCases() []Case {
 		out = append(out, Case{Key: "directed-" + string(m), Mode: m, Window: 4, NCmds: 3, PSelect: 0, PTxn: 0.3, PNoise: 0, MaxTxn: 2,
 			Frags: 1, Pauses: 0, Pause: 0, Base: 5000})
 	}
+	// the same in sync mode on a target that also holds a key in DB 3
+	out = append(out, Case{Key: "directed-sync-otherdb", Mode: config.ReplayModeSync, Window: 4, NCmds: 3, PTxn: 0.3, MaxTxn: 2, Frags: 1, ForeignDB: 3, Base: 5000})
 	return out
 }
 
@@ -50,7 +52,12 @@ func Explore(run *harness.Run, o Options) {
 	x := &explorer{run: run, o: o, sem: make(chan struct{}, 32), seenSubs: map[string]bool{}}
 	var cases []Case
 	if o.Directed {
-		cases = append(cases, directedCases()...)
+		// first and one after the other, so that their (minimal) witnesses are the ones kept
+		for _, c := range directedCases() {
+			if run.WantCase(c.Key) {
+				x.one(c)
+			}
+		}
 	}
 	for i := 0; i < o.NBase; i++ {
 		key := fmt.Sprintf("case-%d", i)
@@ -68,7 +75,7 @@ func Explore(run *harness.Run, o Options) {
 func (x *explorer) report(e *Env, l *RunLog, fs []Finding) {
 	for _, f := range fs {
 		w := map[string]any{"config": e.C.String(), "path": l.Path, "depth": l.Depth, "cut_where": l.CutWhere,
-			"units": unitDump(e), "stream": streamDump(e), "starts": startDump(l), "send_error": fmt.Sprint(l.SendErr), "note": l.Note,
+			"units": unitDump(e), "stream": streamDump(e), "starts": startDump(l), "requests_of_starts": startReqDump(l), "send_error": fmt.Sprint(l.SendErr), "note": l.Note,
 			"state_at_cut_bookkeeping_tail": bookTail(l.StartApps, 24), "run_bookkeeping_head": bookHead(l.Apps, 60)}
 		x.run.Violation(f.Sig, e.C.Key, f.What, w)
 	}
@@ -86,6 +93,7 @@ func (x *explorer) account(st Stats, key string, l *RunLog) {
 	r.Count("tool_starts", int64(st.StartsTotal))
 	r.Count("tool_starts_without_traffic", int64(st.StartsNoTraffic))
 	r.Count("start_point_refusals", int64(st.Refusals))
+	r.Count("tool_starts_with_mode_switch", int64(st.ModeSwitches))
 	for _, s := range st.Inconclusive {
 		r.Inconclusive("%s: %s: %s", key, l.Path, s)
 	}
@@ -142,7 +150,7 @@ func (x *explorer) explore(e *Env, r *rand.Rand, l *RunLog, depth int) {
 			defer wg.Done()
 			x.sem <- struct{}{}
 			path := fmt.Sprintf("%sstop after request %d of %d [%s] (stands for %d request prefixes)", pathPrefix(l), cut.N, l.NReqs, strings.Join(cut.Where, ","), cut.Stands)
-			nl, why := e.Restart(rr, l, cut, idle, path)
+			nl, why := e.Restart(rr, l, cut, idle, e.switchPlan(rr, l, cut, idle), path)
 			<-x.sem
 			if nl == nil {
 				run.Inconclusive("%s: %s: %s", e.C.Key, path, why)
@@ -158,7 +166,7 @@ func (x *explorer) explore(e *Env, r *rand.Rand, l *RunLog, depth int) {
 			x.report(e, nl, fs)
 			rep := e.Repeats(nl)
 			for _, w := range cut.Where {
-				run.Distinct(fmt.Sprintf("%s|depth=%d|cut=%s|repeat=%v", e.C.Ctx(), nl.Depth, w, rep))
+				run.Distinct(fmt.Sprintf("%s|%s|depth=%d|cut=%s|repeat=%v", e.C.Ctx(cut.Mode, false), modePath(nl), nl.Depth, w, rep))
 				run.Seen("cut_where", w)
 			}
 			x.subsets(e, rr, nl)
@@ -171,6 +179,47 @@ func (x *explorer) explore(e *Env, r *rand.Rand, l *RunLog, depth int) {
 	wg.Wait()
 }
 
+// modePath: the modes the starts of a restarted run were configured with, e.g. "pipeline>sync".
+func modePath(l *RunLog) string {
+	var ms []string
+	for _, s := range l.Starts {
+		if len(ms) == 0 || ms[len(ms)-1] != string(s.Mode) {
+			ms = append(ms, string(s.Mode))
+		}
+	}
+	return "starts=" + strings.Join(ms, ">")
+}
+
+// switchPlan: PRNG choice of the replay mode the starts of a restart chain are configured with.
+// About one chain in four is started in another mode than the one the namespace was last used
+// in (within the recovery family: in-place switch; across families: namespace migration seeded
+// from the old namespace's recovery state); the later starts of the chain keep that mode.
+// Across families only from states that hold a migration seed (a latest record / a frontier or a
+// journal starting at 1): without one the start-up bookkeeping refuses to migrate ("no bisync
+// authoritative migration seed found", retried for seconds) — no resume question, and on the
+// unchanged tree merely another consequence of recovery destroying the journal (F11).
+func (e *Env) switchPlan(r *rand.Rand, l *RunLog, cut Cut, idle int) []config.ReplayMode {
+	modes := make([]config.ReplayMode, idle+1)
+	if r.Intn(4) != 0 {
+		return modes
+	}
+	var others []config.ReplayMode
+	for _, m := range []config.ReplayMode{config.ReplayModeSync, config.ReplayModePipeline, config.ReplayModeParallel} {
+		if m != cut.Mode {
+			others = append(others, m)
+		}
+	}
+	to := others[r.Intn(len(others))]
+	m := fakeredis.New(serverOptions())
+	m.Replay(reservedWrites(l.StateAt(cut.N)))
+	nsMode, seed := NamespaceSeed(m, e.RunID)
+	if nsMode == "" || (config.ReplayMode(nsMode).UsesFrontier() != to.UsesFrontier() && !seed) {
+		return modes
+	}
+	modes[0] = to
+	return modes
+}
+
 func pathPrefix(l *RunLog) string {
 	if l.Path == "" {
 		return ""
@@ -181,12 +230,9 @@ func pathPrefix(l *RunLog) string {
 // subsets: the pure history check on the journal records surviving in the state run l started
 // from: RebuildBisyncFrontier on ALL subsets (n ≤ 10 records) against the definition.
 func (x *explorer) subsets(e *Env, r *rand.Rand, l *RunLog) {
-	if !e.C.Frontier() {
-		return
-	}
 	m := fakeredis.New(serverOptions())
 	m.Replay(reservedWrites(l.StartApps))
-	snap, recs := Surviving(m)
+	snap, recs := Surviving(m, e.RunID)
 	if len(recs) == 0 {
 		return
 	}
@@ -233,6 +279,10 @@ func SyntheticSubsets(run *harness.Run) {
 		}{
 			{nil, 1}, {nil, 2}, {&Snap{0, 1000}, 1}, {&Snap{0, 1000}, 3}, {&Snap{4, 1400}, 5}, {&Snap{4, 1400}, 3}, {&Snap{4, 1400}, 6}, {&Snap{7, 1700}, 1},
 		} {
+			key := fmt.Sprintf("synthetic-n%d-lo%d", n, sc.lo)
+			if !run.WantCase(key) {
+				continue
+			}
 			recs := make([]Rec, n)
 			for i := range recs {
 				seq := sc.lo + int64(i)
@@ -240,11 +290,14 @@ func SyntheticSubsets(run *harness.Run) {
 			}
 			shapes++
 			k, rf := EnumerateSubsets(r, runID, sc.snap, recs, func(o RebuildOutcome) {
-				run.Violation(o.Sig+"|synthetic", fmt.Sprintf("synthetic-n%d-lo%d", n, sc.lo), o.What, map[string]any{"snapshot": fmt.Sprint(sc.snap), "records": fmt.Sprint(recs)})
+				run.Violation(o.Sig+"|synthetic", key, o.What, map[string]any{"snapshot": fmt.Sprint(sc.snap), "records": fmt.Sprint(recs)})
 			})
 			total += k
 			refused += rf
 		}
+	}
+	if shapes == 0 {
+		return
 	}
 	run.Eval(shapes)
 	run.Count("journal_subsets_enumerated_synthetic", int64(total))
@@ -282,6 +335,36 @@ func startDump(l *RunLog) []string {
 			kind = "then Send on an idle source, stopped"
 		}
 		out = append(out, fmt.Sprintf("start %d: requests %d..%d StartPoint=%+v err=%v; %s", i+1, s.ReqFrom, s.ReqDone, s.SP, s.Err, kind))
+	}
+	return out
+}
+
+// startReqDump lists the target requests of each (non-initial) start: bookkeeping + StartPoint.
+func startReqDump(l *RunLog) []string {
+	var out []string
+	for i, s := range l.Starts {
+		if s.Initial {
+			continue
+		}
+		for _, q := range l.Reqs {
+			if q.Seq < s.ReqFrom || q.Seq > s.ReqDone || q.Cmd == "PING" {
+				continue
+			}
+			arg := ""
+			if len(q.Args) > 0 {
+				arg = string(q.Args[0])
+				if c := ClassOf(q.Args[0]); c != KBusiness && c != KHash {
+					arg = "<" + c.String() + ">"
+					if c == KCommit {
+						arg += string(q.Args[0][len(q.Args[0])-4:])
+					}
+				}
+			}
+			out = append(out, fmt.Sprintf("start %d #%d conn%d db%d %s %s", i+1, q.Seq, q.Conn, q.DB, q.Cmd, arg))
+		}
+		if len(out) > 120 {
+			break
+		}
 	}
 	return out
 }
